@@ -76,7 +76,7 @@ fn norm_ss(ss: &mut SsParams, m: usize) {
 fn norm_kind(k: &mut Kind, only_dens: bool) {
     if only_dens && !k.is_dens() {
         let i = KINDS.iter().position(|x| x == k).unwrap_or(0);
-        *k = [Kind::OptF64, Kind::OptF32, Kind::RevF64, Kind::RevF32][i % 4];
+        *k = [Kind::OptF64, Kind::OptF32, Kind::RevF64, Kind::RevF32, Kind::OptF64NoHash, Kind::RevF64NoHash][i % 6];
     }
 }
 
@@ -207,6 +207,7 @@ pub fn fuzz(id: &str, data: &[u8]) {
             |c: &mut c11::Case| {
                 c.m = 1 + c.m % 64;
                 c.l = 1 + c.l % 4;
+                c.family %= 4;
                 c.seq.iter_mut().for_each(|x| *x %= 9);
                 while c.seq.len() < c.l {
                     c.seq.push(c.seq.len() as u8 % 3);
@@ -271,10 +272,13 @@ pub fn fuzz(id: &str, data: &[u8]) {
             |c: &mut c15::Case| {
                 c.m = 1 + c.m % 70;
                 for op in c.ops.iter_mut() {
-                    if let c15::Op::Update(_, v) = op {
-                        if v.0.is_nan() {
-                            v.0 = 1.0;
+                    match op {
+                        c15::Op::Update(_, v) | c15::Op::Fill(v, _) => {
+                            if !v.0.is_finite() {
+                                v.0 = 1.0;
+                            }
                         }
+                        _ => {}
                     }
                 }
                 true
@@ -294,7 +298,20 @@ pub fn fuzz(id: &str, data: &[u8]) {
             },
             c17::eval,
         ),
-        "C18" => run_case(id, "values", data, 4096, |_c: &mut crate::sigprobe::SigVal| true, c18::eval_inprocess),
+        "C18" => run_case(
+            id,
+            "values",
+            data,
+            4096,
+            |c: &mut crate::sigprobe::SigVal| {
+                use crate::sigprobe::SigVal;
+                if let SigVal::BigU16(n, _) | SigVal::BigU32(n, _) = c {
+                    *n %= 70_000;
+                }
+                true
+            },
+            c18::eval_inprocess,
+        ),
         "C19" => run_case(
             id,
             "h64",
